@@ -112,6 +112,28 @@ Proof.
 Qed.
 Print Assumptions C11_never_member.
 
+(** * what a scheduling round does (any scheduler context) *)
+
+(* level-triggered retries: every view entry that needs work - members to restore, or a DELETE / join-CREATE /
+   ADD branch of the repair chain - gets its request in EVERY batch the scheduler may issue, every round *)
+Theorem C01_round_acts : forall (P : params) (C : sctx) (b : list request) (c : shard),
+  allowed P C (OBatch b) = true -> c ∈ entries C ->
+  (has_restore P C c = true \/ repair_action P C c <> ANone) ->
+  exists q, q ∈ b /\ q_shard q = s_id c /\ is_kill q = false.
+Proof. exact round_acts. Qed.
+Print Assumptions C01_round_acts.
+
+(* C11 quiescence, decision level: when Drummer's view shows every member of every shard healthy and the
+   kill list is empty, the ONLY outcome the scheduler can produce is the empty batch (no error, no panic),
+   and the closed-loop state is left unchanged *)
+Theorem C11_quiescent_round : forall (P : params) (st : fstate) (o : outcome) (st' : fstate),
+  d_kill (f_db st) = [] ->
+  (forall c, c ∈ entries (ctx_of_db (f_db st)) ->
+     n_failed P (ctx_of_db (f_db st)) c = 0%nat /\ n_wait P (ctx_of_db (f_db st)) c = 0%nat) ->
+  fstep P st (ESchedule o) = FOk st' -> o = OBatch [] /\ st' = st.
+Proof. intros P st o st' Hk Hall. apply quiescent_step. split; [exact Hk|exact Hall]. Qed.
+Print Assumptions C11_quiescent_round.
+
 (* the hypothesis [init_ok] is what the correspondence evaluates (as the boolean [init_okb]) on the
    model state of every replayed run at the end of the launch phase *)
 Theorem C01_init_checked : forall st, init_okb st = true -> init_ok st.
